@@ -422,7 +422,9 @@ impl Mon {
                     }
                     if s.pos_msg < n_msgs {
                         // (for a subscriber behind beyond the capacity this is C06's Pending clause, not C05's)
-                        let tag = if n_msgs - s.pos_msg > cap { "C06" } else { "C05" };
+                        // within the capacity it is both: diffs the subscriber must receive (C05) and a stream that
+                        // reports Pending while its replica is not the contents (C06)
+                        let tag = if n_msgs - s.pos_msg > cap { "C06" } else { "C05|C06" };
                         return div(
                             tag,
                             format!("subscriber s{i} is Pending although {} message(s) are undelivered", n_msgs - s.pos_msg),
